@@ -70,6 +70,17 @@ pub fn case_laws(va: &dyn VariantApi, a: &[u8], b: &[u8], st: &CaseStats) -> Res
             ));
         }
     }
+    // the laws hold whichever body-distance backend is selected (every compiled one, by hook):
+    // zero on identical bodies, symmetric, at most 6 per bucket
+    let (ba, bb) = (&a[v.ck + 2..], &b[v.ck + 2..]);
+    for be in DIST_BACKENDS {
+        if let (Some(dab), Some(dba), Some(daa)) = (va.body_distance_by(be, ba, bb), va.body_distance_by(be, bb, ba), va.body_distance_by(be, ba, ba)) {
+            st.eval();
+            if daa != 0 || dab != dba || dab > 6 * v.buckets as u32 || (dab == 0) != (ba == bb) {
+                return Err(format!("body distance backend {:?}: d(a,a)={}, d(a,b)={}, d(b,a)={}, bound {} ({})", be, daa, dab, dba, 6 * v.buckets, ctxs));
+            }
+        }
+    }
     // non-trivial: differing in at least two of the four parts
     let differing_parts = parts.iter().filter(|&&x| x > 0).count();
     if differing_parts >= 2 {
@@ -184,6 +195,19 @@ pub fn case_witness(va: &dyn VariantApi, fill: u8, st: &CaseStats) -> Result<(),
         let d = ha.compare(hb.as_ref(), no_length);
         if d != mx {
             return Err(format!("{}: extremal witness has distance {} != max_distance = {} (a={}, b={})", v.name, d, mx, hex(&a), hex(&b)));
+        }
+    }
+    // the bound is attained whichever body-distance backend the build (or the CPU) selects:
+    // every compiled backend (hook) gives 6 per bucket on the witness bodies, in both orders
+    let (ba, bb) = (&a[v.ck + 2..], &b[v.ck + 2..]);
+    for be in DIST_BACKENDS {
+        for (x, y) in [(ba, bb), (bb, ba)] {
+            if let Some(d) = va.body_distance_by(be, x, y) {
+                st.eval();
+                if d != 6 * v.buckets as u32 {
+                    return Err(format!("{}: body distance of the extremal witness by backend {:?} = {} != 6 * {} (a={}, b={})", v.name, be, d, v.buckets, hex(x), hex(y)));
+                }
+            }
         }
     }
     st.nontrivial(fnv_mix(fnv(v.name.as_bytes()), fill as u64));
